@@ -21,10 +21,10 @@ func (e *otlpLogDec) Decode() error {
 
 	for _, resLog := range logs.ResourceLogs {
 		resourceAttrs := map[string]string{}
-		e.initAttributesMap(resLog.Resource.Attributes, "", &resourceAttrs)
+		e.initAttributesMap(resLog.GetResource().GetAttributes(), "", &resourceAttrs)
 		for _, scopeLog := range resLog.ScopeLogs {
 			scopeAttrs := map[string]string{}
-			e.initAttributesMap(scopeLog.Scope.Attributes, "", &scopeAttrs)
+			e.initAttributesMap(scopeLog.GetScope().GetAttributes(), "", &scopeAttrs)
 			for _, logRecord := range scopeLog.LogRecords {
 				var labels [][]string
 				// Merge resource and scope attributes
@@ -90,7 +90,7 @@ func SanitizeKey(key string) string {
 }
 
 func SanitizeValue(value *otlpCommon.AnyValue) string {
-	switch v := value.Value.(type) {
+	switch v := value.GetValue().(type) {
 	case *otlpCommon.AnyValue_StringValue:
 		return v.StringValue
 	case *otlpCommon.AnyValue_BoolValue:
